@@ -15,7 +15,7 @@ ASSUMPTIONS = [
     "tabu cooldown >= 1; evolve population non-empty; bayesian_opt n_initial >= 1 and lo < hi; DE strategies "
     "'x/2' only with populations large enough for four distinct difference vectors",
     "dyadic bounds and start points so that clipping and rng.uniform are exact at the bounds",
-    "lns/alns acceptance rules: the three documented names (a user-supplied rule may reject improvements)",
+    "lns/alns acceptance rules: the three documented names and three caller-supplied callables (reject small improvements / reject everything / accept on odd iterations)",
     "DE/PSO start points: at most population-size many; the start-point relation is applied to in-bounds ones",
     "bfgs/lbfgs: smooth objectives with their analytic gradient, objective_fn always given",
 ]
@@ -196,6 +196,8 @@ def gen(stratum, rng, tier):
                      "start_temp": rng.choice([0.5, 5.0, 100.0]), "cooling_rate": rng.choice([0.9995, 0.9, 0.5]),
                      "max_no_improve": rng.choice([1, 3, 20, 100, 1000])}
         c["stop"] = _stop(rng, mi)
+        if rng.random() < 0.15:
+            c["opts"]["accept"] = rng.choice(["custom:margin", "custom:never", "custom:odd"])
         if stratum == "lns":
             c["destroy"] = [rng.randint(1, 2 if c["kind"] == "vec" else 3)]
             c["repair"] = [rng.choice(["uniform", "grid", "nudge"] if c["kind"] == "vec" else ["random", "greedy"])]
@@ -245,13 +247,13 @@ def gen(stratum, rng, tier):
                 ps = max(ps, 5)
             c["opts"] = {"max_iter": mi, "population_size": ps, "mutation": rng.choice([0.5, 0.8, 1.5]),
                          "crossover": rng.choice([0.0, 0.1, 0.7, 1.0]), "strategy": strat, "tol": rng.choice([1e-8, 1e-8, 0.0, 1e-2])}
-            c["init"] = _init_points(rng, c["bounds"], max(ps, 4))
+            c["init"] = _init_points(rng, c["bounds"], max(ps, 4) + rng.choice([0, 0, 0, 3]))  # sometimes more than fit
         else:
             npart = rng.randint(1, 8)
             c["opts"] = {"max_iter": mi, "n_particles": npart, "inertia": rng.choice([0.7, 0.9, 0.4]),
                          "inertia_decay": rng.choice([None, None, 0.4]), "cognitive": rng.choice([1.5, 0.5, 2.0]),
                          "social": rng.choice([1.5, 0.5, 2.0]), "v_max": rng.choice([None, None, 0.5, 4.0])}
-            c["init"] = _init_points(rng, c["bounds"], npart)
+            c["init"] = _init_points(rng, c["bounds"], npart + rng.choice([0, 0, 0, 3]))
         c["stop"] = _stop(rng, mi)
     elif stratum == "nelder-mead":
         d = rng.randint(1, 3)
@@ -412,9 +414,16 @@ def _launcher(case):
 
         def launch(f, mn, holder):
             ds, rs = ops()
+            o2 = dict(opts)
+            if str(o2.get("accept", "")).startswith("custom:"):
+                # a caller's own acceptance rule (the signature takes a callable): it decides where the walk goes, not
+                # what the best evaluated candidate was
+                o2["accept"] = {"custom:margin": lambda cur, new, it, rng: new <= cur - 1.0,
+                                "custom:never": lambda cur, new, it, rng: False,
+                                "custom:odd": lambda cur, new, it, rng: it % 2 == 1}[o2["accept"]]
             if s == "lns":
-                return L.lns(list(case["x0"]), f, ds[0], rs[0], minimize=mn, seed=seed, **opts, **_progress_kw(case, holder))
-            return L.alns(list(case["x0"]), f, ds, rs, minimize=mn, seed=seed, **opts, **_progress_kw(case, holder))
+                return L.lns(list(case["x0"]), f, ds[0], rs[0], minimize=mn, seed=seed, **o2, **_progress_kw(case, holder))
+            return L.alns(list(case["x0"]), f, ds, rs, minimize=mn, seed=seed, **o2, **_progress_kw(case, holder))
 
         return launch, [case["x0"]], None
     if s == "evolve":
